@@ -27,6 +27,7 @@ type C20Case struct {
 	MaxRetries int      `json:"max_retries,omitempty"`
 	V6         bool     `json:"v6,omitempty"`
 	Wild       bool     `json:"wildcard_listen,omitempty"`
+	IP4Form    bool     `json:"relay_ip_4_bytes,omitempty"` // the configured IPv4 relay address is a 4-byte net.IP (net.IP.To4, netip.Addr.AsSlice)
 	Rand       []uint32 `json:"rand"` // scripted Intn outputs (0xFFFFFFFF = n-1, others reduced mod n)
 	Pre        []int    `json:"pre,omitempty"`
 	Ops        []C20Op  `json:"ops"`
@@ -106,6 +107,9 @@ func runC20Inner(c *C20Case) (string, string) { //nolint:cyclop,gocyclo,maintidx
 		if c.V6 {
 			listen = "::"
 		}
+	}
+	if c.IP4Form && !c.V6 {
+		relayIP = relayIP.To4()
 	}
 	bindIP := net.ParseIP(listen)
 	rnd := &scriptedRand{vals: c.Rand}
@@ -373,6 +377,7 @@ func genC20(rt *rapid.T) *C20Case {
 	c := &C20Case{Gen: rapid.SampledFrom([]string{"range", "range", "range", "static", "none"}).Draw(rt, "gen")}
 	c.V6 = rapid.IntRange(0, 3).Draw(rt, "v6") == 0
 	c.Wild = rapid.IntRange(0, 2).Draw(rt, "wild") == 0
+	c.IP4Form = rapid.Bool().Draw(rt, "ip4form")
 	if c.Gen == "range" {
 		width := rapid.OneOf(rapid.IntRange(0, 4), rapid.IntRange(0, 40), rapid.IntRange(0, 65534)).Draw(rt, "width")
 		c.MinPort = rapid.OneOf(rapid.IntRange(1, 65535), rapid.SampledFrom([]int{1, 2, 1023, 1024, 49152, 65534, 65535})).Draw(rt, "min")
